@@ -64,20 +64,20 @@ package plenc
 //@   ensures[C02,C08] @reflect.Type.Kind(typ) == 23 && called_CodecRegistry_StoreOrSwap && call_CodecRegistry_StoreOrSwap_arg3.typ == tid("plenccodec.WTFixedSliceWrapper") ==> call_Codec_WireType_r0 == 1 || call_Codec_WireType_r0 == 5
 //@   ensures[C02,C08] @reflect.Type.Kind(typ) == 23 && called_CodecRegistry_StoreOrSwap ==> call_CodecRegistry_StoreOrSwap_arg3.typ == tid("plenccodec.ProtoSliceWrapper") || call_CodecRegistry_StoreOrSwap_arg3.typ == tid("plenccodec.WTLengthSliceWrapper") || call_CodecRegistry_StoreOrSwap_arg3.typ == tid("plenccodec.WTVarIntSliceWrapper") || call_CodecRegistry_StoreOrSwap_arg3.typ == tid("plenccodec.WTFixedSliceWrapper")
 //@   # named basic kinds fall back to the codec registered on this instance for the basic type under the same tag
-//@   ensures[C17,C02,C08] old(@plenccodec.CodecRegistry.Load(registry, typ, tag)) == nil && @reflect.Type.Kind(typ) == 1 ==> (r1 == nil) == (old(@plenc.*baseRegistry.Load(p + 8, rtype(bool), tag)) != nil) && (r1 == nil ==> r0 == old(@plenc.*baseRegistry.Load(p + 8, rtype(bool), tag)))
-//@   ensures[C17,C02,C08] old(@plenccodec.CodecRegistry.Load(registry, typ, tag)) == nil && @reflect.Type.Kind(typ) == 2 ==> (r1 == nil) == (old(@plenc.*baseRegistry.Load(p + 8, rtype(int), tag)) != nil) && (r1 == nil ==> r0 == old(@plenc.*baseRegistry.Load(p + 8, rtype(int), tag)))
-//@   ensures[C17,C02,C08] old(@plenccodec.CodecRegistry.Load(registry, typ, tag)) == nil && @reflect.Type.Kind(typ) == 3 ==> (r1 == nil) == (old(@plenc.*baseRegistry.Load(p + 8, rtype(int8), tag)) != nil) && (r1 == nil ==> r0 == old(@plenc.*baseRegistry.Load(p + 8, rtype(int8), tag)))
-//@   ensures[C17,C02,C08] old(@plenccodec.CodecRegistry.Load(registry, typ, tag)) == nil && @reflect.Type.Kind(typ) == 4 ==> (r1 == nil) == (old(@plenc.*baseRegistry.Load(p + 8, rtype(int16), tag)) != nil) && (r1 == nil ==> r0 == old(@plenc.*baseRegistry.Load(p + 8, rtype(int16), tag)))
-//@   ensures[C17,C02,C08] old(@plenccodec.CodecRegistry.Load(registry, typ, tag)) == nil && @reflect.Type.Kind(typ) == 5 ==> (r1 == nil) == (old(@plenc.*baseRegistry.Load(p + 8, rtype(int32), tag)) != nil) && (r1 == nil ==> r0 == old(@plenc.*baseRegistry.Load(p + 8, rtype(int32), tag)))
-//@   ensures[C17,C02,C08] old(@plenccodec.CodecRegistry.Load(registry, typ, tag)) == nil && @reflect.Type.Kind(typ) == 6 ==> (r1 == nil) == (old(@plenc.*baseRegistry.Load(p + 8, rtype(int64), tag)) != nil) && (r1 == nil ==> r0 == old(@plenc.*baseRegistry.Load(p + 8, rtype(int64), tag)))
-//@   ensures[C17,C02,C08] old(@plenccodec.CodecRegistry.Load(registry, typ, tag)) == nil && @reflect.Type.Kind(typ) == 7 ==> (r1 == nil) == (old(@plenc.*baseRegistry.Load(p + 8, rtype(uint), tag)) != nil) && (r1 == nil ==> r0 == old(@plenc.*baseRegistry.Load(p + 8, rtype(uint), tag)))
-//@   ensures[C17,C02,C08] old(@plenccodec.CodecRegistry.Load(registry, typ, tag)) == nil && @reflect.Type.Kind(typ) == 8 ==> (r1 == nil) == (old(@plenc.*baseRegistry.Load(p + 8, rtype(uint8), tag)) != nil) && (r1 == nil ==> r0 == old(@plenc.*baseRegistry.Load(p + 8, rtype(uint8), tag)))
-//@   ensures[C17,C02,C08] old(@plenccodec.CodecRegistry.Load(registry, typ, tag)) == nil && @reflect.Type.Kind(typ) == 9 ==> (r1 == nil) == (old(@plenc.*baseRegistry.Load(p + 8, rtype(uint16), tag)) != nil) && (r1 == nil ==> r0 == old(@plenc.*baseRegistry.Load(p + 8, rtype(uint16), tag)))
-//@   ensures[C17,C02,C08] old(@plenccodec.CodecRegistry.Load(registry, typ, tag)) == nil && @reflect.Type.Kind(typ) == 10 ==> (r1 == nil) == (old(@plenc.*baseRegistry.Load(p + 8, rtype(uint32), tag)) != nil) && (r1 == nil ==> r0 == old(@plenc.*baseRegistry.Load(p + 8, rtype(uint32), tag)))
-//@   ensures[C17,C02,C08] old(@plenccodec.CodecRegistry.Load(registry, typ, tag)) == nil && @reflect.Type.Kind(typ) == 11 ==> (r1 == nil) == (old(@plenc.*baseRegistry.Load(p + 8, rtype(uint64), tag)) != nil) && (r1 == nil ==> r0 == old(@plenc.*baseRegistry.Load(p + 8, rtype(uint64), tag)))
-//@   ensures[C17,C02,C08] old(@plenccodec.CodecRegistry.Load(registry, typ, tag)) == nil && @reflect.Type.Kind(typ) == 13 ==> (r1 == nil) == (old(@plenc.*baseRegistry.Load(p + 8, rtype(float32), tag)) != nil) && (r1 == nil ==> r0 == old(@plenc.*baseRegistry.Load(p + 8, rtype(float32), tag)))
-//@   ensures[C17,C02,C08] old(@plenccodec.CodecRegistry.Load(registry, typ, tag)) == nil && @reflect.Type.Kind(typ) == 14 ==> (r1 == nil) == (old(@plenc.*baseRegistry.Load(p + 8, rtype(float64), tag)) != nil) && (r1 == nil ==> r0 == old(@plenc.*baseRegistry.Load(p + 8, rtype(float64), tag)))
-//@   ensures[C17,C02,C08] old(@plenccodec.CodecRegistry.Load(registry, typ, tag)) == nil && @reflect.Type.Kind(typ) == 24 ==> (r1 == nil) == (old(@plenc.*baseRegistry.Load(p + 8, rtype(string), tag)) != nil) && (r1 == nil ==> r0 == old(@plenc.*baseRegistry.Load(p + 8, rtype(string), tag)))
+//@   ensures[C17,C02,C08,C06] old(@plenccodec.CodecRegistry.Load(registry, typ, tag)) == nil && @reflect.Type.Kind(typ) == 1 ==> (r1 == nil) == (old(@plenc.*baseRegistry.Load(p + 8, rtype(bool), tag)) != nil) && (r1 == nil ==> r0 == old(@plenc.*baseRegistry.Load(p + 8, rtype(bool), tag)))
+//@   ensures[C17,C02,C08,C06] old(@plenccodec.CodecRegistry.Load(registry, typ, tag)) == nil && @reflect.Type.Kind(typ) == 2 ==> (r1 == nil) == (old(@plenc.*baseRegistry.Load(p + 8, rtype(int), tag)) != nil) && (r1 == nil ==> r0 == old(@plenc.*baseRegistry.Load(p + 8, rtype(int), tag)))
+//@   ensures[C17,C02,C08,C06] old(@plenccodec.CodecRegistry.Load(registry, typ, tag)) == nil && @reflect.Type.Kind(typ) == 3 ==> (r1 == nil) == (old(@plenc.*baseRegistry.Load(p + 8, rtype(int8), tag)) != nil) && (r1 == nil ==> r0 == old(@plenc.*baseRegistry.Load(p + 8, rtype(int8), tag)))
+//@   ensures[C17,C02,C08,C06] old(@plenccodec.CodecRegistry.Load(registry, typ, tag)) == nil && @reflect.Type.Kind(typ) == 4 ==> (r1 == nil) == (old(@plenc.*baseRegistry.Load(p + 8, rtype(int16), tag)) != nil) && (r1 == nil ==> r0 == old(@plenc.*baseRegistry.Load(p + 8, rtype(int16), tag)))
+//@   ensures[C17,C02,C08,C06] old(@plenccodec.CodecRegistry.Load(registry, typ, tag)) == nil && @reflect.Type.Kind(typ) == 5 ==> (r1 == nil) == (old(@plenc.*baseRegistry.Load(p + 8, rtype(int32), tag)) != nil) && (r1 == nil ==> r0 == old(@plenc.*baseRegistry.Load(p + 8, rtype(int32), tag)))
+//@   ensures[C17,C02,C08,C06] old(@plenccodec.CodecRegistry.Load(registry, typ, tag)) == nil && @reflect.Type.Kind(typ) == 6 ==> (r1 == nil) == (old(@plenc.*baseRegistry.Load(p + 8, rtype(int64), tag)) != nil) && (r1 == nil ==> r0 == old(@plenc.*baseRegistry.Load(p + 8, rtype(int64), tag)))
+//@   ensures[C17,C02,C08,C06] old(@plenccodec.CodecRegistry.Load(registry, typ, tag)) == nil && @reflect.Type.Kind(typ) == 7 ==> (r1 == nil) == (old(@plenc.*baseRegistry.Load(p + 8, rtype(uint), tag)) != nil) && (r1 == nil ==> r0 == old(@plenc.*baseRegistry.Load(p + 8, rtype(uint), tag)))
+//@   ensures[C17,C02,C08,C06] old(@plenccodec.CodecRegistry.Load(registry, typ, tag)) == nil && @reflect.Type.Kind(typ) == 8 ==> (r1 == nil) == (old(@plenc.*baseRegistry.Load(p + 8, rtype(uint8), tag)) != nil) && (r1 == nil ==> r0 == old(@plenc.*baseRegistry.Load(p + 8, rtype(uint8), tag)))
+//@   ensures[C17,C02,C08,C06] old(@plenccodec.CodecRegistry.Load(registry, typ, tag)) == nil && @reflect.Type.Kind(typ) == 9 ==> (r1 == nil) == (old(@plenc.*baseRegistry.Load(p + 8, rtype(uint16), tag)) != nil) && (r1 == nil ==> r0 == old(@plenc.*baseRegistry.Load(p + 8, rtype(uint16), tag)))
+//@   ensures[C17,C02,C08,C06] old(@plenccodec.CodecRegistry.Load(registry, typ, tag)) == nil && @reflect.Type.Kind(typ) == 10 ==> (r1 == nil) == (old(@plenc.*baseRegistry.Load(p + 8, rtype(uint32), tag)) != nil) && (r1 == nil ==> r0 == old(@plenc.*baseRegistry.Load(p + 8, rtype(uint32), tag)))
+//@   ensures[C17,C02,C08,C06] old(@plenccodec.CodecRegistry.Load(registry, typ, tag)) == nil && @reflect.Type.Kind(typ) == 11 ==> (r1 == nil) == (old(@plenc.*baseRegistry.Load(p + 8, rtype(uint64), tag)) != nil) && (r1 == nil ==> r0 == old(@plenc.*baseRegistry.Load(p + 8, rtype(uint64), tag)))
+//@   ensures[C17,C02,C08,C06] old(@plenccodec.CodecRegistry.Load(registry, typ, tag)) == nil && @reflect.Type.Kind(typ) == 13 ==> (r1 == nil) == (old(@plenc.*baseRegistry.Load(p + 8, rtype(float32), tag)) != nil) && (r1 == nil ==> r0 == old(@plenc.*baseRegistry.Load(p + 8, rtype(float32), tag)))
+//@   ensures[C17,C02,C08,C06] old(@plenccodec.CodecRegistry.Load(registry, typ, tag)) == nil && @reflect.Type.Kind(typ) == 14 ==> (r1 == nil) == (old(@plenc.*baseRegistry.Load(p + 8, rtype(float64), tag)) != nil) && (r1 == nil ==> r0 == old(@plenc.*baseRegistry.Load(p + 8, rtype(float64), tag)))
+//@   ensures[C17,C02,C08,C06] old(@plenccodec.CodecRegistry.Load(registry, typ, tag)) == nil && @reflect.Type.Kind(typ) == 24 ==> (r1 == nil) == (old(@plenc.*baseRegistry.Load(p + 8, rtype(string), tag)) != nil) && (r1 == nil ==> r0 == old(@plenc.*baseRegistry.Load(p + 8, rtype(string), tag)))
 //@   # kinds plenc cannot encode are rejected with an error
 //@   ensures[C08] old(@plenccodec.CodecRegistry.Load(registry, typ, tag)) == nil && (@reflect.Type.Kind(typ) == 0 || @reflect.Type.Kind(typ) == 12 || (@reflect.Type.Kind(typ) >= 15 && @reflect.Type.Kind(typ) <= 20) || @reflect.Type.Kind(typ) >= 26) ==> r1 != nil
 
